@@ -150,7 +150,7 @@ def opt_unamb_sites(ctx):
     b = ctx.body(SEQ_OPT)
     if b is None:
         return out + [missing(SEQ_OPT)]
-    AB = [("OPT", "<Operation as OperationControl>::optimize(a2.1, a1.0)"), ("RO", "Operation::repeat_operation(OPT) as Some.0"), ("CH", "RepeatOperation::child(RO)")]
+    AB = [("OPT", "<Operation as OperationControl>::optimize(a2.1, ^a2)"), ("RO", "Operation::repeat_operation(OPT) as Some.0"), ("CH", "RepeatOperation::child(RO)")]
     n = 0
     for p in ctx.walk(b).paths:
         gs, r = summarize(p, AB)
@@ -163,7 +163,7 @@ def opt_unamb_sites(ctx):
         key = "site#%d" % n
         child_ok = any(g in ("variant(CH)=Atom", "variant(CH)=CharClass") for g in gs)
         eqmm = any(g in ("eq(RepeatOperation::max(RO), RepeatOperation::min(RO))", "eq(RepeatOperation::min(RO), RepeatOperation::max(RO))") for g in gs)
-        amb = any(g == "ReCompiler::no_ambiguity(CH, a1.2[add(1, a2.0)], ReFlags::is_case_independent(a1.0), !RepeatOperation::greedy(RO))" for g in gs)
+        amb = any(g == "ReCompiler::no_ambiguity(CH, ^a1.operations[add(1, a2.0)], ReFlags::is_case_independent(^a2), !RepeatOperation::greedy(RO))" for g in gs)
         ktype = "min==max" if eqmm else "no_ambiguity" if amb else "unjustified"
         key = "site|" + ktype
         if not child_ok:
@@ -175,7 +175,7 @@ def opt_unamb_sites(ctx):
         else:
             out.append(ok(key))
     # last operation is never rewritten (it has no follower)
-    lastok = any(summarize(p, AB)[0][:1] in (["eq(a2.0, sub(a1.1, 1))"], ["eq(sub(a1.1, 1), a2.0)"]) and summarize(p, AB)[1] == "OPT" for p in ctx.walk(b).paths)
+    lastok = any(summarize(p, AB)[0][:1] in (["eq(a2.0, sub(len(^a1.operations), 1))"], ["eq(sub(len(^a1.operations), 1), a2.0)"], ["!lt(add(1, a2.0), len(^a1.operations))"], ["!lt(add(a2.0, 1), len(^a1.operations))"]) and summarize(p, AB)[1] == "OPT" for p in ctx.walk(b).paths)
     out.append(ok("last-not-rewritten") if lastok else bad("last-not-rewritten", "the last operation of a sequence must be returned as optimised (no follower to compare with)", b.loc()))
     # cut inventory: other constructors of cuts
     for callee_, allowed in (("operation::ForceProgressIterator::new", {"<op_repeat::Repeat as %s>::matches_iter" % OC}), ("re_matcher::ReMatcher::is_duplicate_zero_length_match", {"<op_repeat::Repeat as %s>::matches_iter" % OC})):
